@@ -6,22 +6,36 @@ SPEC = dict(
              "Drivers/C09.lean"],
     n=dict(quick=800, thorough=60000),
     rtol=1e-9, atol=1e-12,
-    rule="case k (k mod 16): general stream = random tree of 2-6 bodies from 13 mobilizer types (Euler/quaternion), 1-4 random "
-         "constraints of 18 types, optional Motion::Sinusoid, optional lock (position/velocity), optional random Wu/Tp/Tpv, "
-         "assembled by System::project from a random state (discarded when that throws), then 3 rounds of perturbation of q and u "
-         "(0 or 1e-8..1e-1, rescaled quaternions) each followed by System::projectQ and projectU with random ProjectOptions "
-         "(accuracy 1e-3..1e-10, ForceProjection, UseInfinityNorm, LocalOnly, DontThrow or caught exception, overshoot, projection "
-         "limit); linear stream (k mod 4 = 1) = qdot==u mobilizers with ConstantCoordinate / linear CoordinateCoupler / ConstantSpeed, "
-         "random weights, optional lock, correction compared with the weighted minimum-norm solution; degenerate stream (k mod 16 = 7) "
-         "= zero-length quaternion, Slider+Rod with vanishing Jacobian, or a quadratic SpeedCoupler without real root.  Records: projQ/projU (entry norm and worst index recomputed "
-         "by the model; early exits predicted field by field by the skeleton; Newton-path results accepted by the contract), normq, "
-         "packQ/packU, minnorm; distinct = distinct input records",
-    partial="Newton convergence itself is numerical: the skeleton takes the per-iteration constraint errors as an oracle (Jacobian, QTZ "
-            "pseudo-inverse, N/N+ and realizePosition are not modelled); on the Newton path the public API shows only ProjectResults, so "
-            "the tie is the kind-K contract acceptsQ/acceptsU (the full skeleton is replayed on per-iteration traces only when the hook of "
-            "notes/C09_hook.patch is present in the library; tried by interposition without touching /repo: all 3908 traced calls of seeds 1,2 predicted exactly); the "
-            "min-norm theorems are over exact fields and full row rank, the driver's Gaussian elimination is checked through its residual "
-            "(min_norm_of_multiplier), rank-deficient cases are skipped; minimum-norm clause checked for N = identity mobilizers only",
+    rule="case k (k mod 16): general stream = random tree of 2-6 bodies from the ceq_tree v6 palette (18 mobilizer types, reversed "
+         "1/4, Euler/quaternion), 1-4 random constraints of 18 types (one DISABLED in 1/4 of the multi-constraint cases), optional "
+         "Motion::Sinusoid, optional lock (position/velocity), optional random Wu/Tp/Tpv, assembled by System::project from a random "
+         "state (accuracy request non-positive in 1/8; discarded when that throws, about 47 %; tagged), compared with the documented "
+         "call sequence (dispatch record); then 4 rounds of perturbation of q and u (0 | 1e-8..1e-1 | far 0.3..3, rescaled "
+         "quaternions) each followed by System::projectQ and projectU with random ProjectOptions (accuracy 1e-3..1e-10 or "
+         "non-positive, ForceProjection, UseInfinityNorm, LocalOnly, DontThrow or caught exception, overshoot, projection limit, "
+         "q/u error estimate in 1/3); linear stream (k mod 4 = 1) = qdot==u mobilizers with ConstantCoordinate / linear "
+         "CoordinateCoupler / ConstantSpeed, random weights, optional lock; linearN stream (k mod 4 = 3) = the same constraints on "
+         "non-quaternion coordinates of trees containing Gimbal/Bushing/Ball/Free/Ellipsoid/SphericalCoords (Euler mode 2/3): the "
+         "correction is compared with the model's weighted minimum-norm step (N = I resp. S = N Wu^-1 N^+ from exported N, N^+); "
+         "degenerate stream (k mod 16 = 7) = zero-length quaternion, Slider+Rod with vanishing Jacobian, quadratic SpeedCoupler "
+         "without real root.  Records: projQ/projU (entry norm and worst index recomputed by the model; the MODEL decides the exit; "
+         "early exits predicted field by field; Newton-path results must satisfy the Newton clause of the path-aware contract incl. "
+         "iteration cap and restored-on-failure), normq (5 mobilizer types), normqP, errq, packQ/packU, minnorm, minnormN, dispatch; "
+         "distinct = distinct input records",
+    partial="per clause: (i) proved about the executed model, (ii) predicate / model-compared record only, (iii) not covered. "
+            "success => perr <= acc: (i) success_sound over an ORACLE for the per-iteration errors + accepts_sound, (ii) perr_le_acc on the "
+            "final state; 'normalising quaternions does not change perr' is (ii) only. velocity: (i) success_sound_U, (ii) uerr_le_acc. "
+            "unit quaternions: (i) normalize_unit, normalizeQuatsMasked_spec, (ii) quat_unit, normq, normqP. prescribed q kept: (i) only the "
+            "packing lemma and the masked normalisation, otherwise (ii) prescribed_kept + pack/minnorm records. unchanged if satisfied and "
+            "unforced / iterates if forced: (i) no_change_if_ok, path-aware contract, (ii) unchanged, forced_iterates. minimum norm for "
+            "linear constraints: (i) exact fields, full row rank (min_norm_documented_step N=I, min_norm_step_general any N, "
+            "min_norm_relative_scaling velocity level), the driver's Gaussian elimination is certified by its residual only, (ii) minnorm / "
+            "minnormN records + minnorm_kkt, (iii) rank-deficient or ill-conditioned sets (skipped, tagged) and nonlinear constraints. "
+            "System::project dispatch: (i) no_throw_is_success for the default options, (ii) dispatch record. Newton iteration itself is "
+            "numerical: (iii) exact iteration counts, overshoot target and back-step state are NOT tied (the per-iteration hook of "
+            "notes/C09_hook.patch is not in /repo; hook_needed is null); without it the Newton path is tied only by the contract clauses "
+            "its <= 20|7, FailedToConverge => LocalOnly and its >= 2, throw <=> failed and not DontThrow, Succeeded => exit norm <= acc, "
+            "failure never worse than entry and exit = entry => state restored (projectU / no quaternions)",
     assumptions=["sqrt enters as a parameter; normalize_unit assumes sqrt(n)*sqrt(n) = n and n != 0",
                  "the order on the scalar field is total (IEEE NaN is outside the theorems: see findings {project,projectQ,projectU}.nonfinite.success_sound)",
                  "quaternion normalisation is assumed by the code not to change the holonomic errors; checked on the final state by the "
